@@ -3641,8 +3641,12 @@ class ControlConnection(object):
         Replace existing connection (if there is one) and close it.
         """
         with self._lock:
-            old = self._connection
-            self._connection = conn
+            if self._is_shutdown:
+                # shutdown() ran while this connection was being set up: it must not outlive it
+                old = conn
+            else:
+                old = self._connection
+                self._connection = conn
 
         if old:
             log.debug("[control connection] Closing old connection %r, replacing with %r", old, conn)
